@@ -2,7 +2,7 @@ package phase1
 
 import "github.com/nulab/autog/internal/graph"
 
-const vhMaxN = 6
+const vhMaxN = 12
 
 // vhSymGraph builds a symbolic multigraph with exactly n nodes and m edges in canonical form:
 // node k occurs in the edge list only after nodes 0..k-1 (exactly the numbering
